@@ -9,7 +9,8 @@ Called from the C04 / C06 / C11 / C12 / C17 check modules:
     KNOWN, THEOREMS, LEAN_MODULES, RULE, EXPLANATION, ASSUMPTIONS
 
 A *case* is a JSON-able dict
-    {"pf","f","items":[ints],"term":"stop"|"error","hist":[op,…],"sched":{"seed","adv"},"delay":virtual seconds per source next()}
+    {"pf","f","items":[ints],"term":"stop"|"error","hist":[op,…],"sched":{"seed","adv"},"delay":virtual seconds per source next(),
+     "sfail": None|position at which source.state_dict() raises, "worker": absent|"pin" (PinMemory's iterator, pf = 1)}
 ops:  "next" | "sd" (state_dict, remembered) | "reset" (node.reset(): new epoch mid-stream) |
       "reload" (drop the node; fresh source + fresh Prefetcher; reset(last remembered state_dict)) | "del" (drop the node)
 
@@ -106,6 +107,48 @@ def Src(items, term, delay=0.0, sfail=None):
     return _SRC_CLS(items, term, delay, sfail)
 
 
+_PIN_CLS = None
+
+
+def make_node(case, src):
+    """the node under test: `Prefetcher`, or (case["worker"] == "pin") the iterator of `PinMemory` - PinMemory.__init__ needs a
+    CUDA device, so a node with PinMemory's reset()/next()/get_state() bodies builds exactly its
+    `_SingleThreadedMapper(prefetch_factor=1, worker=wraps(_pin_memory_loop)(partial(_pin_memory_loop, device_id=0, device=None)))`"""
+    global _PIN_CLS
+    if case.get("worker") != "pin":
+        from torchdata.nodes import Prefetcher
+        return Prefetcher(src, prefetch_factor=case["pf"], snapshot_frequency=case["f"])
+    if _PIN_CLS is None:
+        from torchdata.nodes import BaseNode
+
+        class _Pin(BaseNode):
+            def __init__(self, source, snapshot_frequency):
+                super().__init__()
+                self.source, self.snapshot_frequency = source, snapshot_frequency
+                self._it = None
+
+            def reset(self, initial_state=None):
+                import torchdata.nodes.pin_memory as PMM
+                from torchdata.nodes.map import _SingleThreadedMapper
+                super().reset(initial_state)
+                if self._it is not None:
+                    self._it._shutdown()
+                    del self._it
+                self._it = _SingleThreadedMapper(
+                    source=self.source, prefetch_factor=1,
+                    worker=functools.wraps(PMM._pin_memory_loop)(functools.partial(PMM._pin_memory_loop, device_id=0, device=None)),
+                    snapshot_frequency=self.snapshot_frequency, initial_state=initial_state)
+
+            def next(self):
+                return next(self._it)
+
+            def get_state(self):
+                return self._it.get_state()
+
+        _PIN_CLS = _Pin
+    return _PIN_CLS(src, case["f"])
+
+
 def ref_results(case, base=0) -> List[tuple]:
     """reference: results of successive next() calls from source position `base`, up to and including the terminal"""
     out: List[tuple] = [("i", v) for v in case["items"][base:]]
@@ -166,6 +209,9 @@ class Instr:
         self.o_init, self.o_next, self.o_state = cls.__init__, cls.__next__, cls.get_state
         self.o_pop = SS.QueueSnapshotStore.pop_version
         self.o_worker = P._populate_queue
+        import torchdata.nodes.pin_memory as PMM
+        self.PMM = PMM
+        self.o_pin = PMM._pin_memory_loop
         instr = self
 
         def init(it, *a, **k):
@@ -225,6 +271,15 @@ class Instr:
                 if s is not None and not s.closed and s.me() is not None and not s.me().killed:
                     s.ev("rexit", q.name)
 
+        @functools.wraps(self.o_pin)
+        def pin_worker(source, q, *a, **k):
+            try:
+                return instr.o_pin(source, q, *a, **k)
+            finally:
+                s = vsched.CUR
+                if s is not None and not s.closed and s.me() is not None and not s.me().killed:
+                    s.ev("rexit", q.name)
+
         def shutdown(it):
             s = vsched.CUR
             ev = getattr(it, "_stop_event", None)
@@ -242,6 +297,7 @@ class Instr:
         cls.__init__, cls.__next__, cls.get_state, cls._shutdown = init, nxt, get_state, shutdown
         SS.QueueSnapshotStore.pop_version = pop_version
         P._populate_queue = worker
+        PMM._pin_memory_loop = pin_worker
         vsched._short = _pf_short
         return self
 
@@ -263,6 +319,7 @@ class Instr:
         vsched._short = self.o_short
         self.SS.QueueSnapshotStore.pop_version = self.o_pop
         self.P._populate_queue = self.o_worker
+        self.PMM._pin_memory_loop = self.o_pin
         return False
 
 
@@ -448,7 +505,7 @@ def run_case(case, probe_held=False, check_release=False, op_budget=60.0) -> Run
         with Session(sc["seed"], adversarial=bool(sc.get("adv")), log=True, op_budget=op_budget) as s:
             src = Src(case["items"], case["term"], delay, case.get("sfail"))
             r.srcs.append(src)
-            node = Prefetcher(src, prefetch_factor=case["pf"], snapshot_frequency=case["f"])
+            node = make_node(case, src)
             st = {"ev_i": 0, "taken": {}, "rets": 0}
 
             def scan():
@@ -561,7 +618,7 @@ def run_case(case, probe_held=False, check_release=False, op_budget=60.0) -> Run
                         settle()
                         src = Src(case["items"], case["term"], delay, case.get("sfail"))
                         r.srcs.append(src)
-                        node = Prefetcher(src, prefetch_factor=case["pf"], snapshot_frequency=case["f"])
+                        node = make_node(case, src)
                         try:
                             node.reset(sd)
                             r.obs.append(("reload",))
@@ -606,6 +663,8 @@ def run_case(case, probe_held=False, check_release=False, op_budget=60.0) -> Run
 def gen_case(rng, adv=None, delay=0.0, sfail=None) -> Dict[str, Any]:
     """sfail: None = state_dict() fails in ~12% of the cases, False = never, True = always (when a position is available)"""
     c = _gen_case(rng, adv, delay)
+    if rng.random() < 0.15:
+        c["worker"], c["pf"] = "pin", 1   # PinMemory's iterator: worker _pin_memory_loop, prefetch_factor 1
     if sfail is False or (sfail is None and rng.random() >= 0.12):
         return c
     f, n = c["f"], len(c["items"])
@@ -652,7 +711,7 @@ def _gen_case(rng, adv=None, delay=0.0) -> Dict[str, Any]:
 
 
 def case_sig(case):
-    return [case["pf"], case["f"], case["items"], case["term"], case["hist"], case["sched"], case.get("delay", 0.0), case.get("sfail")]
+    return [case["pf"], case["f"], case["items"], case["term"], case["hist"], case["sched"], case.get("delay", 0.0), case.get("sfail"), case.get("worker")]
 
 
 # --------------------------------------------------------------------------------------------------------------
@@ -686,12 +745,14 @@ def run_kt(ctx: Ctx, n: Optional[int] = None):
         if not a or not a.get("ok"):
             at = a.get("at") if isinstance(a, dict) else None
             ev = o["req"]["trace"][at] if isinstance(at, int) and at < len(o["req"]["trace"]) else None
-            ctx.diverge("kt_pf", case, f"trace of the real Prefetcher rejected by TDV.PF at event {at} {ev}: "
+            ctx.diverge("kt_pf", case, f"trace of the real {'PinMemory iterator' if case.get('worker') == 'pin' else 'Prefetcher'} rejected by TDV.PF at event {at} {ev}: "
                                        f"{(a or {}).get('why', (a or {}).get('error', a))}")
             continue
         ctx.traces_validated += 1
         nontrivial = a.get("ahead", 0) >= 2 or a.get("tmo", 0) > 0
         ctx.case("kt_pf", case_sig(case), nontrivial)
+        if case.get("worker") == "pin":
+            ctx.count("worker:pin")
         ctx.count("kt_pf.pf=%d" % case["pf"])
         ctx.count("kt_pf.f=%d" % case["f"])
         ctx.count("kt_pf.timeouts" if a.get("tmo", 0) > 0 else "kt_pf.no_timeouts")
@@ -790,7 +851,7 @@ def run_c06(case) -> List[Tuple[str, str]]:
             gc.collect()
             gc.disable()
             try:
-                node = Prefetcher(Src(items, case["term"], 0.0), prefetch_factor=case["pf"], snapshot_frequency=case["f"])
+                node = make_node(case, Src(items, case["term"], 0.0))
                 s.begin_op()
                 node.reset()
                 sds = [copy.deepcopy(node.state_dict())]
@@ -798,7 +859,7 @@ def run_c06(case) -> List[Tuple[str, str]]:
                     pull(node, s, 1)
                     sds.append(copy.deepcopy(node.state_dict()))
                 for m, sd in enumerate(sds):
-                    node2 = Prefetcher(Src(items, case["term"], 0.0), prefetch_factor=case["pf"], snapshot_frequency=case["f"])
+                    node2 = make_node(case, Src(items, case["term"], 0.0))
                     s.begin_op()
                     node2.reset(copy.deepcopy(sd))
                     k = min(m, n)
@@ -834,6 +895,8 @@ def _ko_job(ctx: Ctx, job):
         fails = run_c06(case)
         ctx.case("ko_pf_c06", case_sig(case), len(case["items"]) >= 2 and case["f"] != 1)
         ctx.count("ko_pf.c06")
+        if case.get("worker") == "pin":
+            ctx.count("worker:pin")
     else:
         r = run_case(case, probe_held=True, check_release=True)
         if r.internal:
@@ -863,6 +926,8 @@ def _ko_job(ctx: Ctx, job):
             fails += check_obs(case, r.obs)
         nontrivial = r.max_held >= 2 or r.n_timeouts > 0
         ctx.case("ko_pf", case_sig(case), nontrivial)
+        if case.get("worker") == "pin":
+            ctx.count("worker:pin")
         ctx.count("ko_pf.max_held=%d" % min(r.max_held, 5))
     return fails, case
 
